@@ -254,12 +254,25 @@ pub fn units(tier: Tier, _seed: u64) -> Vec<Unit> {
         u.push(unit!(format!("C11/PFE({n},Ema(2))/k={k}"), pfe(n, k, VK::Ema(2))));
     }
     for x in u.iter_mut() { x.budget_s = if q { 120.0 } else { 900.0 }; }
+    // larger windows for the branching views, along the comparison path of a pseudo-random sample input
+    let first_big = u.len();
+    for &n in &(if q { vec![8usize, 16] } else { vec![6usize, 8, 12, 16, 32] }) {
+        let k = n + 6;
+        u.push(unit!(format!("C11/TrendFlex({n})/k={k}/sample-path"), flex(n, k, false)));
+        u.push(unit!(format!("C11/ReFlex({n})/k={k}/sample-path"), flex(n, k, true)));
+        u.push(unit!(format!("C11/LaguerreRSI({n})/k={k}/sample-path"), laguerre_rsi(n, k)));
+        u.push(unit!(format!("C11/EFT({n},Echo)/k={k}/sample-path"), fisher(n, k, VK::Echo)));
+        u.push(unit!(format!("C11/EFT({n},Ema(3))/k={k}/sample-path"), fisher(n, k, VK::Ema(3))));
+        u.push(unit!(format!("C11/PFE({n},Echo)/k={k}/sample-path"), pfe(n, k, VK::Echo)));
+        u.push(unit!(format!("C11/PFE({n},Ema(3))/k={k}/sample-path"), pfe(n, k, VK::Ema(3))));
+    }
+    for x in u.iter_mut().skip(first_big) { x.concolic = Some(13); x.budget_s = 40.0; x.max_decisions = 60000; }
     u
 }
 pub fn meta() -> Meta {
     Meta {
         functions: vec!["SuperSmoother", "RoofingFilter", "LaguerreFilter", "LaguerreRSI", "CyberCycle", "TrendFlex", "ReFlex", "EhlersFisherTransform (identity and Ema(2) average)", "PolarizedFractalEfficiency (identity and Ema(2) average) — each ::{new,update,last}"],
-        bounds: "SuperSmoother/Roofing(N,4 and N,N)/CyberCycle: N in {1..10,12,16,20,32} (quick) / {1..10,16,20,48} (thorough), k = max(2N+4,12) capped at 40; LaguerreFilter gamma in {0,0.5,0.8,0.95,0.995}, k=12, and symbolic gamma in [0,1), k=5; LaguerreRSI N in {2,3} / {2..5,10}, k=4/5, all comparison paths (up to the 20000-path cap, reported when hit); TrendFlex/ReFlex N in {3,4} / {3..6,10,16}, k=N+3; EFT N in {2,3} / {2,3,4}; PFE N in {3,4} / {3..6}, k=N+3; inputs unconstrained reals (|x|<=1 where the obligation is a 1e-5 tolerance)",
+        bounds: "SuperSmoother/Roofing(N,4 and N,N)/CyberCycle: N in {1..10,12,16,20,32} (quick) / {1..10,16,20,48} (thorough), k = max(2N+4,12) capped at 40; LaguerreFilter gamma in {0,0.5,0.8,0.95,0.995}, k=12, and symbolic gamma in [0,1), k=5; LaguerreRSI N in {2,3} / {2..5,10}, k=4/5, all comparison paths (up to the 20000-path cap, reported when hit); TrendFlex/ReFlex N in {3,4} / {3..6,10,16}, k=N+3; EFT N in {2,3} / {2,3,4}; PFE N in {3,4} / {3..6}, k=N+3; inputs unconstrained reals (|x|<=1 where the obligation is a 1e-5 tolerance); in addition TrendFlex, ReFlex, LaguerreRSI, EFT, PFE at N in {8,16} (quick) / {6,8,12,16,32}, k=N+6, along a sampled comparison path",
         outside: vec!["window lengths and stream lengths beyond those listed", "f64 rounding", "TrendFlex/ReFlex below N=3 (the crate's window then holds fewer than the two previous smoother values the recursion reads)"],
         assumptions: vec!["reference coefficients use the same libm (exp, cos, sin of concrete arguments) as the crate, so a changed literal or formula shows as a different rational coefficient", "where the crate writes the truncated literal 4.4422 for 1.414*pi (SuperSmoother, Roofing) the obligation is |impl - spec| <= 1e-5 on |x| <= 1", "sqrt exact (axiomatised), ln uninterpreted with congruence"],
     }
